@@ -10,6 +10,7 @@ import VProofs.Lemmas.EvalCountChar
 import VProofs.Lemmas.EvalCountWord
 import VProofs.Lemmas.EvalCountLine
 import VProofs.Lemmas.CrossFront
+import VProofs.Lemmas.EvalFloatBetween
 /-!
 # C20 — Command-line tools agree with the library, line by line
 
@@ -132,6 +133,160 @@ theorem C20_eval_line_wf (cfg : Cfg) (m : WModel) (hm : WFModel m) (ht : WFTags 
 example : EvalLineWF ⟨[B.N, B.W], [[none], [some ['x']], [none]], [B.W, B.W], [[none], [some ['x']], [none]]⟩ ∧
     wordCounts [⟨[B.N, B.W], [[none], [some ['x']], [none]], [B.W, B.W], [[none], [some ['x']], [none]]⟩] = (1, 3, 2) := by
   refine ⟨by unfold EvalLineWF; decide, by decide⟩
+
+/-! ## `evaluate`: the three floating-point numbers it prints (`VModel/F64Arith.lean`: `evalMetrics num pDen rDen` is
+`(precision, recall, f1)` with `precision = num/pDen`, `recall = num/rDen`, `f1 = ((2.·precision)·recall) / (precision + recall)`
+in IEEE-754 binary64, every operation correctly rounded; char metric: `num = n_tp`, `pDen = n_tp + n_fp`, `rDen = n_tp + n_fn`;
+word metric: `num = n_cor`, `pDen = n_sys`, `rDen = n_ref`; the counts are `i32`, so below `2^31`, and `num ≤ pDen`,
+`num ≤ rDen` hold for both metrics) -/
+
+/-- the arithmetic itself: every result of `f64OfNat`, `f64Mul`, `f64Add` is a binary64 value, the conversion is exact below
+`2^53`, `*` and `+` are commutative on all operands, and the IEEE special cases hold (`x + (−x) = +0`, `(−0) + (−0) = −0`,
+`0·∞ = NaN`, `∞ − ∞ = NaN`) -/
+theorem C20_f64_arith_sane :
+    (∀ n, (f64OfNat n).IsDouble) ∧ (∀ n, n < 2 ^ 53 → f64OfNat n = .fin false (n * F64.unit)) ∧
+    (∀ x y, (f64Mul x y).IsDouble) ∧ (∀ x y, (f64Add x y).IsDouble) ∧
+    (∀ x y, f64Mul x y = f64Mul y x) ∧ (∀ x y, f64Add x y = f64Add y x) ∧
+    (∀ s a, f64Add (.fin s a) (f64Neg (.fin s a)) = .fin false 0) ∧ f64Add (.fin true 0) (.fin true 0) = .fin true 0 ∧
+    (∀ s t, f64Mul (.fin s 0) (.inf t) = .nan ∧ f64Mul (.inf t) (.fin s 0) = .nan) ∧ (∀ s, f64Sub (.inf s) (.inf s) = .nan) :=
+  EvalF.arith_sane
+
+/-- NaN: precision is NaN exactly when its denominator is 0 (then the numerator is 0 too), the same for recall; F1 is NaN
+exactly when precision or recall is NaN or the numerator is 0 (`0/0` in the last division); and every one of the three numbers
+that is not NaN is a finite, non-negative binary64 value (sign bit clear) — never ±∞, never −0 -/
+theorem C20_eval_metrics_nan (num pDen rDen : Nat) (hp : pDen < 2 ^ 31) (hr : rDen < 2 ^ 31)
+    (hnp : num ≤ pDen) (hnr : num ≤ rDen) :
+    ((evalMetrics num pDen rDen).1 = .nan ↔ pDen = 0) ∧
+    ((evalMetrics num pDen rDen).2.1 = .nan ↔ rDen = 0) ∧
+    ((evalMetrics num pDen rDen).2.2 = .nan ↔
+      ((evalMetrics num pDen rDen).1 = .nan ∨ (evalMetrics num pDen rDen).2.1 = .nan ∨ num = 0)) ∧
+    (∀ x, x = (evalMetrics num pDen rDen).1 ∨ x = (evalMetrics num pDen rDen).2.1 ∨ x = (evalMetrics num pDen rDen).2.2 →
+      x ≠ .nan → x.Finite ∧ x.sign = false ∧ x.IsDouble) :=
+  EvalF.metrics_nan num pDen rDen hp hr hnp hnr
+
+/-- the hypothesis `num ≤ pDen` of `C20_eval_metrics_nan` matters only for a zero denominator: without it the quotient `n/0`
+with `n > 0` is `+∞`, not NaN (unreachable in the tool) -/
+theorem C20_eval_metrics_zero_den (num rDen : Nat) (hn : num < 2 ^ 31) :
+    (evalMetrics num 0 rDen).1 = if num = 0 then .nan else .inf false :=
+  EvalF.metrics_zero_den num rDen hn
+
+/-- range: with positive denominators `0 ≤ precision ≤ 1` and `0 ≤ recall ≤ 1` (IEEE comparisons against the doubles `0.0`
+and `1.0`), precision is exactly `1.0` iff `num = pDen` and exactly `0.0` iff `num = 0` (no proper fraction of `i32` counts
+rounds to 1, no non-zero one underflows), likewise recall; for `num > 0`: `0 < f1 ≤ 1`, and `f1 = 1.0` when
+`num = pDen = rDen` -/
+theorem C20_eval_metrics_range (num pDen rDen : Nat) (hp : pDen < 2 ^ 31) (hr : rDen < 2 ^ 31)
+    (hp0 : 0 < pDen) (hr0 : 0 < rDen) (hnp : num ≤ pDen) (hnr : num ≤ rDen) :
+    f64Le (f64OfNat 0) (evalMetrics num pDen rDen).1 = true ∧ f64Le (evalMetrics num pDen rDen).1 (f64OfNat 1) = true ∧
+    f64Le (f64OfNat 0) (evalMetrics num pDen rDen).2.1 = true ∧ f64Le (evalMetrics num pDen rDen).2.1 (f64OfNat 1) = true ∧
+    ((evalMetrics num pDen rDen).1 = f64OfNat 1 ↔ num = pDen) ∧ ((evalMetrics num pDen rDen).1 = f64OfNat 0 ↔ num = 0) ∧
+    ((evalMetrics num pDen rDen).2.1 = f64OfNat 1 ↔ num = rDen) ∧ ((evalMetrics num pDen rDen).2.1 = f64OfNat 0 ↔ num = 0) ∧
+    (0 < num → f64Lt (f64OfNat 0) (evalMetrics num pDen rDen).2.2 = true ∧
+      f64Le (evalMetrics num pDen rDen).2.2 (f64OfNat 1) = true) ∧
+    (0 < num → num = pDen → num = rDen → (evalMetrics num pDen rDen).2.2 = f64OfNat 1) :=
+  EvalF.metrics_range num pDen rDen hp hr hp0 hr0 hnp hnr
+
+/-- precision is the correctly rounded quotient of the two integers: `roundUnits (num·2^1074) pDen` units, the double nearest
+to the rational `num/pDen` (the five clauses of `C11_f64_rounding`: representable; within half a grid step below and above;
+never crossing a representable value from either side); and equal fractions give the same double, so the printed precision
+depends only on the ratio (recall is the same function of `num` and `rDen`) -/
+theorem C20_eval_metrics_exact_ratio (num pDen rDen : Nat) (hn : num < 2 ^ 31) (hp : pDen < 2 ^ 31) (hp0 : 0 < pDen) :
+    (evalMetrics num pDen rDen).1 = .fin false (roundUnits (num * F64.unit) pDen) ∧
+    (evalMetrics num rDen pDen).2.1 = (evalMetrics num pDen rDen).1 ∧
+    QuantL.RepU (roundUnits (num * F64.unit) pDen) ∧
+    (2 * (num * F64.unit) ≤ 2 * (pDen * roundUnits (num * F64.unit) pDen) + pDen ∨
+      2 ^ 53 * (num * F64.unit) ≤ 2 ^ 53 * (pDen * roundUnits (num * F64.unit) pDen) + num * F64.unit) ∧
+    (2 * (pDen * roundUnits (num * F64.unit) pDen) ≤ 2 * (num * F64.unit) + pDen ∨
+      2 ^ 53 * (pDen * roundUnits (num * F64.unit) pDen) ≤ 2 ^ 53 * (num * F64.unit) + num * F64.unit) ∧
+    (∀ g, QuantL.RepU g → num * F64.unit ≤ pDen * g → roundUnits (num * F64.unit) pDen ≤ g) ∧
+    (∀ g, QuantL.RepU g → pDen * g ≤ num * F64.unit → g ≤ roundUnits (num * F64.unit) pDen) ∧
+    (∀ num' pDen' rDen', num' < 2 ^ 31 → pDen' < 2 ^ 31 → 0 < pDen' → num * pDen' = num' * pDen →
+      (evalMetrics num' pDen' rDen').1 = (evalMetrics num pDen rDen).1) :=
+  ⟨(EvalF.metrics_exact_ratio num pDen rDen hn hp hp0).1, rfl,
+    QuantL.roundUnits_rep _ _ hp0, QuantL.roundUnits_lower _ _ hp0, QuantL.roundUnits_upper _ _ hp0,
+    fun g hg h => QuantL.roundUnits_le_of_le _ _ g hp0 hg h, fun g hg h => QuantL.le_roundUnits_of_le _ _ g hp0 hg h,
+    (EvalF.metrics_exact_ratio num pDen rDen hn hp hp0).2⟩
+
+/-- F1 is symmetric in precision and recall: swapping the two denominators swaps precision and recall and leaves F1 unchanged,
+for all `i32` counts (no relation between them needed).  `+` and `*` are commutative (`C20_f64_arith_sane`), but
+`2. * precision * recall` is `(2.·p)·r`, and `(2.·p)·r = (2.·r)·p` holds because doubling is exact on quotients of counts — for
+arbitrary doubles it fails (see the example below) -/
+theorem C20_eval_f1_symmetric (num pDen rDen : Nat) (hn : num < 2 ^ 31) (hp : pDen < 2 ^ 31) (hr : rDen < 2 ^ 31) :
+    (evalMetrics num rDen pDen).2.2 = (evalMetrics num pDen rDen).2.2 ∧
+    (evalMetrics num rDen pDen).1 = (evalMetrics num pDen rDen).2.1 ∧
+    (evalMetrics num rDen pDen).2.1 = (evalMetrics num pDen rDen).1 :=
+  ⟨(EvalF.f1_symmetric num pDen rDen hn hp hr).symm, rfl, rfl⟩
+
+/-- F1 against the smaller and the larger of precision and recall.  The exact harmonic mean lies between them; the computed
+value went through three roundings and CAN leave `[min p r, max p r]` by one grid step on either side (examples below: counts
+1/5/5 and 17/23/23), so the plain statement is false.  True for all counts with `num > 0`: F1 is within a relative
+`(1 ± 2^-53)^3` of the interval — on the magnitudes in units of `2^-1074` (all three numbers are finite and non-negative by
+`C20_eval_metrics_nan`), without division:
+`(2^53 − 1)²·min p r ≤ (2^53 + 1)·2^53·f1` and `(2^53 − 1)·2^53·f1 ≤ (2^53 + 1)²·max p r` -/
+theorem C20_eval_f1_between (num pDen rDen : Nat) (hp : pDen < 2 ^ 31) (hr : rDen < 2 ^ 31)
+    (hnp : num ≤ pDen) (hnr : num ≤ rDen) (hn : 0 < num) :
+    (2 ^ 53 - 1) * (2 ^ 53 - 1) * min (evalMetrics num pDen rDen).1.mag (evalMetrics num pDen rDen).2.1.mag
+      ≤ (2 ^ 53 + 1) * 2 ^ 53 * (evalMetrics num pDen rDen).2.2.mag ∧
+    (2 ^ 53 - 1) * 2 ^ 53 * (evalMetrics num pDen rDen).2.2.mag
+      ≤ (2 ^ 53 + 1) * (2 ^ 53 + 1) * max (evalMetrics num pDen rDen).1.mag (evalMetrics num pDen rDen).2.1.mag :=
+  EvalF.metrics_between num pDen rDen hp hr hnp hnr hn
+
+/-! ### concrete values (kernel evaluation; `0x…` are IEEE-754 bit patterns, as the driver prints them) -/
+namespace C20FloatEx
+
+/-- the bit patterns of the three metrics -/
+def bits (num pDen rDen : Nat) : Nat × Nat × Nat :=
+  let m := evalMetrics num pDen rDen
+  (m.1.toBits, m.2.1.toBits, m.2.2.toBits)
+
+/-- tp = 1, fp = 1, fn = 0: P = 0.5, R = 1.0, F1 = 0.6666666666666666 -/
+example : bits 1 2 1 = (0x3FE0000000000000, 0x3FF0000000000000, 0x3FE5555555555555) := by decide +kernel
+/-- nothing counted: three NaNs -/
+example : bits 0 0 0 = (0x7FF8000000000000, 0x7FF8000000000000, 0x7FF8000000000000) := by decide +kernel
+/-- tp = 0, fp = 1, fn = 1: P = R = 0, F1 = NaN -/
+example : bits 0 1 1 = (0, 0, 0x7FF8000000000000) := by decide +kernel
+/-- a zero denominator on one side only -/
+example : bits 0 0 3 = (0x7FF8000000000000, 0, 0x7FF8000000000000) ∧
+    bits 0 3 0 = (0, 0x7FF8000000000000, 0x7FF8000000000000) := by decide +kernel
+/-- 3/7, 3/11: the exact F1 is 1/3 = `0x3FD5555555555555`, the computed one is one step below -/
+example : bits 3 7 11 = (0x3FDB6DB6DB6DB6DB, 0x3FD1745D1745D174, 0x3FD5555555555554) := by decide +kernel
+/-- everything right: 1.0, 1.0, 1.0; and the largest `i32` counts -/
+example : bits 5 5 5 = (0x3FF0000000000000, 0x3FF0000000000000, 0x3FF0000000000000) ∧
+    bits 2147483646 2147483647 2147483647 = (0x3FEFFFFFFFC00000, 0x3FEFFFFFFFC00000, 0x3FEFFFFFFFC00000) := by
+  decide +kernel
+/-- the text the driver appends -/
+example : metricsText (evalMetrics 1 2 1) = "P=3fe0000000000000,R=3ff0000000000000,F=3fe5555555555555" := by decide +kernel
+/-- the two front ends of `evalMetrics` -/
+example : evalMetricsChar (1, 7, 1, 0) = evalMetrics 1 2 1 ∧ evalMetricsWord (1, 2, 1) = evalMetrics 1 2 1 := ⟨rfl, rfl⟩
+
+/-- `min p r ≤ f1 ≤ max p r` is FALSE for the computed values: P = R = 0.2 (`0x3FC999999999999A`) but F1 =
+`0x3FC999999999999B`, one step above both … -/
+example : bits 1 5 5 = (0x3FC999999999999A, 0x3FC999999999999A, 0x3FC999999999999B) ∧
+    f64Le (evalMetrics 1 5 5).2.2 (evalMetrics 1 5 5).1 = false := by decide +kernel
+/-- … and P = R = 17/23 (`0x3FE7A6F4DE9BD37A`) with F1 one step below both -/
+example : bits 17 23 23 = (0x3FE7A6F4DE9BD37A, 0x3FE7A6F4DE9BD37A, 0x3FE7A6F4DE9BD379) ∧
+    f64Le (evalMetrics 17 23 23).1 (evalMetrics 17 23 23).2.2 = false := by decide +kernel
+
+/-- `(2.·p)·r = (2.·r)·p` is false for arbitrary doubles: with `p` the largest finite double and `r = 0.25` the left product
+overflows in its first step, the right one is exact -/
+example : f64Mul (f64Mul f64Two (F64.ofBits 0x7FEFFFFFFFFFFFFF)) (F64.ofBits 0x3FD0000000000000) = .inf false ∧
+    (f64Mul (f64Mul f64Two (F64.ofBits 0x3FD0000000000000)) (F64.ofBits 0x7FEFFFFFFFFFFFFF)).toBits = 0x7FDFFFFFFFFFFFFF := by
+  decide +kernel
+
+/-- the arithmetic on bit patterns: 1.5·(−3.0) = −4.5; 1.0 + 2^-53 = 1.0 (tie to even) and (1.0 + 2^-52) + 2^-53 = 1.0 + 2^-51
+(tie to even, upwards); 1.0 + (−1.0) = +0; the least subnormal times 0.5 is 0 and three of them times 0.5 is two (ties to even
+under gradual underflow); the largest double times 2 is +∞; 2^53 + 1 → 2^53 and 2^53 + 3 → 2^53 + 4 in `f64OfNat` -/
+example :
+    (f64Mul (F64.ofBits 0x3FF8000000000000) (F64.ofBits 0xC008000000000000)).toBits = 0xC012000000000000 ∧
+    (f64Add (F64.ofBits 0x3FF0000000000000) (F64.ofBits 0x3CA0000000000000)).toBits = 0x3FF0000000000000 ∧
+    (f64Add (F64.ofBits 0x3FF0000000000001) (F64.ofBits 0x3CA0000000000000)).toBits = 0x3FF0000000000002 ∧
+    (f64Add (F64.ofBits 0x3FF0000000000000) (F64.ofBits 0xBFF0000000000000)).toBits = 0 ∧
+    (f64Mul (F64.ofBits 1) (F64.ofBits 0x3FE0000000000000)).toBits = 0 ∧
+    (f64Mul (F64.ofBits 3) (F64.ofBits 0x3FE0000000000000)).toBits = 2 ∧
+    (f64Mul (F64.ofBits 0x7FEFFFFFFFFFFFFF) (F64.ofBits 0x4000000000000000)).toBits = 0x7FF0000000000000 ∧
+    (f64OfNat (2 ^ 53 + 1)).toBits = 0x4340000000000000 ∧ (f64OfNat (2 ^ 53 + 3)).toBits = 0x4340000000000002 := by
+  decide +kernel
+
+end C20FloatEx
 
 /-! ## the two front ends segment alike -/
 
